@@ -19,8 +19,12 @@ RULE = (
     "Case = a directory skeleton (<=6 directories, <=3 levels, chains favoured) and <=30 files created in a real temp "
     "directory, names built from a small vocabulary (foo/zoo/oo, metal/petal/etal, don't, accents, Cyrillic, CJK, "
     "digits; so one suffix is shared by several words) joined by the separators space _ - . ( ) [ ] ' & in random "
-    "case; a history of <=8 operations (add / remove / update mode / scan one / scan all / create, touch, delete, "
-    "rename a file on disk / add a directory nested in or enclosing a shared one / remove the outer or inner one of "
+    "case; in 40% of the cases two directories (siblings, also below a common directory, or one nested in the "
+    "other) hold 'twins': files with the same relative sub-path and name and the same modification time (an album "
+    "copied with the time stamps preserved; now and then without, as control), in three quarters of them both "
+    "directories are shared and scanned first, and two thirds of the queries aim at a twin; a history of <=8 operations (add / remove / update "
+    "mode / scan one / scan all / create, touch, delete, rename a file on disk, copy a file into another directory "
+    "with its time stamp / add a directory nested in or enclosing a shared one / remove the outer or inner one of "
     "two nested shares / share a removed directory again; spellings with trailing slash and '/./'); two environment "
     "choices: 'the cyclic garbage collector ran after each removal' (bit) and explicit collector runs inside the "
     "history (both are real executions, the collector is otherwise off during a case); then 1..6 queries of 1..4 "
@@ -39,8 +43,9 @@ RULE = (
     "the cap. After every operation: each indexed file appears once, in the innermost shared directory, and the "
     "index equals the model; after every full scan additionally the index equals the shared files on disk and "
     "get_stats() == (distinct directories holding an indexed file, indexed files). Non-trivial = some query has a "
-    "non-empty MUST set and (contains a wildcard, exclude or punctuated term, or the history has a nested/enclosing "
-    "add or a removal next to another shared directory); distinct = distinct case document."
+    "non-empty MUST set and (contains a wildcard, exclude or punctuated term, or the MUST set holds two twins, or "
+    "the history has a nested/enclosing add or a removal next to another shared directory); distinct = distinct "
+    "case document."
 )
 ASSUMPTIONS = [
     "the temp file system (/dev/shm if writable, else the default temp dir) is case-sensitive and stores names "
@@ -260,18 +265,50 @@ def build_case(seed):
     # directory skeleton: index 0 = the root
     dir_specs = []
     dirs = [()]
+
+    def add_dir(parent, name):
+        d = dirs[parent] + (name,)
+        if d in dirs:
+            return dirs.index(d)
+        dir_specs.append([parent, name])
+        dirs.append(d)
+        return len(dirs) - 1
+
+    # twins (40% of the cases): two directories A, B -- siblings, or B nested in A -- hold files with the same
+    # relative sub-path and name and the same modification time (an album copied with the time stamps preserved)
+    files = []
+    twin_files = []
+    twin_dirs = None
+    if r.randrange(100) < 40:
+        if r.randrange(3) == 0:                      # B nested in A (A = the root or a directory)
+            a = 0 if r.randrange(2) else add_dir(0, _name(r, False))
+            b = add_dir(a, _name(r, False))
+        else:                                        # siblings, sometimes below a common directory
+            top = 0 if r.randrange(3) else add_dir(0, _name(r, False))
+            a = add_dir(top, _name(r, False))
+            b = add_dir(top, _name(r, False))
+        if a != b:
+            twin_dirs = (a, b)
+            sub = _name(r, False) if r.randrange(2) else None
+            sa, sb = (add_dir(a, sub), add_dir(b, sub)) if sub and len(dirs[b]) < 3 else (a, b)
+            for j in range(r.choice([1, 1, 2, 3, 4])):
+                name = _name(r, True)
+                pa, pb = (sa, sb) if r.randrange(2) else (a, b)
+                twin_files.append([pa, name, j + 1])
+                # now and then the copy did not preserve the time stamp (control: no twin)
+                twin_files.append([pb, name, j + 1 if r.randrange(6) else j + 11])
+            files.extend(twin_files)
     for _ in range(r.choice([0, 1, 2, 2, 3, 3, 4, 5, 6])):
+        if len(dirs) > 6:
+            break
         parent = r.randrange(len(dirs))
         if r.randrange(3) == 0:
             parent = len(dirs) - 1          # chains, so that three nested shares occur
         if len(dirs[parent]) >= 3:
             parent = 0
-        name = _name(r, False)
-        if dirs[parent] + (name,) in dirs:
-            continue
-        dir_specs.append([parent, name])
-        dirs.append(dirs[parent] + (name,))
-    files = [[r.randrange(len(dirs)), _name(r, True)] for _ in range(r.choice([1, 2, 3, 4, 6, 8, 12, 20, 30]))]
+        add_dir(parent, _name(r, False))
+    nrandom = r.choice([1, 2, 3, 4, 6, 8, 12, 20, 30] if not twin_files else [0, 1, 2, 3, 4, 6, 8, 12, 20])
+    files.extend([r.randrange(len(dirs)), _name(r, True)] for _ in range(min(nrandom, 30 - len(files))))
 
     # history; the generator follows the set of shared directories (same index arithmetic as run_case) so that
     # nested adds and removals next to another shared directory can be aimed at
@@ -279,7 +316,19 @@ def build_case(seed):
     ops = []
     shared = set()
     removed = []
-    for i in range(nops):
+    force_scan = 13
+    if twin_dirs and r.randrange(4):
+        # share both twin directories and scan, then go on at random (fewer forced final scans: what a removal
+        # or a partial scan leaves behind is the interesting state)
+        first = list(twin_dirs)
+        r.shuffle(first)
+        for d in first:
+            ops.append({'op': 'add', 'd': d, 'mode': r.randrange(3), 'sp': r.choice([0, 0, 0, 1, 2])})
+            shared.add(dirs[d])
+        ops.append({'op': 'scan'})
+        nops = max(nops, r.choice([3, 4, 4, 5, 5, 6, 7, 8]))
+        force_scan = 5
+    for i in range(len(ops), nops):
         sh = sorted(shared)
         with_child = [k for k, d in enumerate(sh) if any(_is_under(s, d) for s in sh)]
         with_parent = [k for k, d in enumerate(sh) if any(_is_under(d, s) for s in sh)]
@@ -287,12 +336,12 @@ def build_case(seed):
             name = r.choice(['add'] * 12 + ['scan', 'create', 'delete'] + ['add-removed'] * (6 if removed else 0))
         else:
             name = r.choice(['add', 'addrel', 'addrel', 'addrel', 'addrel', 'remove', 'update', 'scan1', 'scan1',
-                             'scan', 'scan', 'scan', 'create', 'touch', 'delete', 'rename', 'gc']
+                             'scan', 'scan', 'scan', 'create', 'touch', 'delete', 'rename', 'gc', 'copy']
                             + ['remove-parent'] * (3 if with_child else 0)
                             + ['remove-child'] * (3 if with_parent else 0)
                             + ['add-removed', 'add-removed', 'gc', 'gc'] * (1 if removed else 0))
         if i == nops - 1 and i > 0 and sh:
-            name = r.choice(['scan'] * 10 + ['scan1'] * 3 + [name] * 7)
+            name = r.choice(['scan'] * (force_scan - 3) + ['scan1'] * 3 + [name] * (20 - force_scan))
         op = {'op': name}
         if name in ('add', 'add-removed'):
             # 'add-removed': share a removed directory again (same or other spelling)
@@ -323,10 +372,12 @@ def build_case(seed):
             op.update(f=r.randrange(41))
         elif name == 'rename':
             op.update(f=r.randrange(41), d=r.randrange(len(dirs)), name=_name(r, True))
+        elif name == 'copy':
+            op.update(f=r.randrange(41), d=r.randrange(len(dirs)))
         ops.append(op)
 
     # queries: most terms are cut out of the path of one target file, so that conjunctions have matches
-    all_files = list(files)
+    all_files = [f[:2] for f in files]
     for op in ops:
         if op['op'] in ('create', 'rename'):
             all_files.append([op['d'] % len(dirs), op['name']])
@@ -334,7 +385,7 @@ def build_case(seed):
     g_words, g_chunks = _words_chunks(full_paths)
     queries = []
     for _ in range(r.randint(1, 6)):
-        d, name = r.choice(all_files)
+        d, name = r.choice(twin_files)[:2] if twin_files and r.randrange(3) else r.choice(all_files)
         t_words, t_chunks = _words_chunks([name] if r.randrange(10) < 6 else ['\\'.join(list(dirs[d]) + [name])])
         terms = []
         for i in range(r.choice([1, 1, 2, 2, 3, 4])):
@@ -488,7 +539,10 @@ def run_case(case) -> CaseResult:
         except Exception:
             continue
         if _valid_name(name):
-            init_files.append(dirs[_int(d) % len(dirs)] + (name,))
+            # optional third element: time-stamp slot; files with the same slot get the same modification time
+            # (a copy made with the time stamps preserved)
+            slot = spec[2] if isinstance(spec, (list, tuple)) and len(spec) > 2 else None
+            init_files.append((dirs[_int(d) % len(dirs)] + (name,), slot))
     ops = [op for op in (case.get('ops') or []) if isinstance(op, dict)][:8]
     queries = [q for q in (case.get('queries') or []) if isinstance(q, dict)][:6]
     run_gc = bool(case.get('gc', False))
@@ -496,7 +550,8 @@ def run_case(case) -> CaseResult:
     model = _Model()
     hist = set()
     labels = set()
-    state = {'clock': 1_000_000_000, 'diverged': set()}
+    state = {'clock': 1_000_000_000, 'diverged': set(), 'twin_keys': set()}
+    twin_names = {}     # (file name, mtime) -> files created with that name and time stamp
 
     root = os.path.realpath(tempfile.mkdtemp(prefix='vfw-c07-', dir=_TMP_PARENT))
 
@@ -515,13 +570,18 @@ def run_case(case) -> CaseResult:
         state['clock'] += 7
         os.utime(path, (state['clock'], state['clock']))
 
-    def create_file(t):
+    def create_file(t, slot=None):
         """Create an empty file unless something is in the way; returns True if created."""
         if t in model.disk or t in dirs or os.path.lexists(apath(t)):
             return False
         with open(apath(t), 'w'):
             pass
-        stamp(apath(t))
+        if slot is None:
+            stamp(apath(t))
+        else:
+            mtime = 900_000_000 + (_int(slot) % 50) * 1000
+            os.utime(apath(t), (mtime, mtime))
+            twin_names.setdefault((t[-1], mtime), []).append(t)
         model.disk.add(t)
         return True
 
@@ -537,8 +597,8 @@ def run_case(case) -> CaseResult:
     try:
         for d in dirs[1:]:
             os.makedirs(apath(d), exist_ok=True)
-        for t in init_files:
-            create_file(t)
+        for t, slot in init_files:
+            create_file(t, slot)
 
         async def main(loop):
             settings = _SETTINGS.get('s')
@@ -601,6 +661,17 @@ def run_case(case) -> CaseResult:
                     if folders != exp_folders:
                         res.violate('C07/stats-folders',
                                     f'get_stats() folders={folders}, index holds files in {exp_folders} directories')
+
+            def note_twins():
+                """indexed files of different shared directories with the same relative path and time stamp"""
+                groups = {}
+                for f, (scan_root, _) in model.known.items():
+                    if f in model.disk:
+                        groups.setdefault((f[len(scan_root):], os.stat(apath(f)).st_mtime), []).append(f)
+                for key, members in groups.items():
+                    if len(members) > 1:
+                        state['twin_keys'].add(key)
+                return groups
 
             async def lib(api, fn, *a, documented=(), **kw):
                 """Call the library; documented exceptions are returned, others are violations."""
@@ -711,8 +782,23 @@ def run_case(case) -> CaseResult:
                     continue
                 elif name == 'create':
                     d = dirs[_int(op.get('d')) % len(dirs)]
-                    if _valid_name(op.get('name')) and create_file(d + (op.get('name'),)):
+                    if _valid_name(op.get('name')) and create_file(d + (op.get('name'),), op.get('slot')):
                         hist.add('disk-change')
+                    continue
+                elif name == 'copy':
+                    # cp -p: same file name in another directory, time stamp preserved
+                    if fl:
+                        f = fl[_int(op.get('f')) % len(fl)]
+                        t = dirs[_int(op.get('d')) % len(dirs)] + (f[-1],)
+                        if t not in model.disk and t not in dirs and not os.path.lexists(apath(t)):
+                            mtime = os.stat(apath(f)).st_mtime
+                            with open(apath(t), 'w'):
+                                pass
+                            os.utime(apath(t), (mtime, mtime))
+                            model.disk.add(t)
+                            twin_names.setdefault((f[-1], mtime), [f]).append(t)
+                            hist.add('disk-change')
+                            hist.add('copy-with-timestamp')
                     continue
                 elif name == 'touch':
                     if fl:
@@ -744,6 +830,7 @@ def run_case(case) -> CaseResult:
                 if run_gc and name.startswith('remove'):
                     collect()
                 check_index(name, full)
+                note_twins()
 
             await simloop.step(1)
             if run_gc:
@@ -760,6 +847,12 @@ def run_case(case) -> CaseResult:
                     indexed_words.update(split_words(path.lower()))
             history_nested = bool(hist & {'nested-add', 'enclosing-add', 'remove-nested', 'remove-enclosing'})
             gc_tag = 'after-gc' if model.gc_after_last_zombie else 'before-gc'
+            twin_groups = note_twins()
+            twin_of = {f: key for key, members in twin_groups.items() if len(members) > 1 for f in members}
+            if twin_of:
+                labels.add('h:twins-indexed')
+            if state['twin_keys']:
+                labels.add('h:twins-indexed-at-some-point')
 
             for q in queries:
                 terms = []
@@ -853,13 +946,24 @@ def run_case(case) -> CaseResult:
                             matching = {w for w in indexed_words if lead and w.endswith(lead)}
                             if len(matching) >= 2 and not matching <= fwords:
                                 kind = 'C07/query-missing:wildcard-suffix-of-several-words'
+                        if f in model.disk and \
+                                (f[len(scan_root):], os.stat(apath(f)).st_mtime) in state['twin_keys']:
+                            # another shared directory holds (or held) a file with the same relative path and the
+                            # same modification time: the two items are confused with each other
+                            kind = 'C07/query-missing:same-relative-path-and-mtime-in-other-directory'
                         res.violate(kind, f'did not return {f} (path {chr(92).join(f[len(model.owner(f)):])!r}); '
                                           f'returned {sorted(got_set)[:4]}; {ctx}')
 
                 # labels / non-triviality
+                twins_in_must = len({twin_of[f] for f in must if f in twin_of}) < sum(1 for f in must if f in twin_of)
+                if twins_in_must:
+                    labels.add('q:nonempty+twins')       # two files of one twin group have to be returned
+                elif any((f[len(model.known[f][0]):], os.stat(apath(f)).st_mtime) in state['twin_keys']
+                         for f in must):
+                    labels.add('q:nonempty+former-twin')  # its twin has left the index (removal, rescan)
                 if must:
                     labels.add('q:nonempty')
-                    if wild or exc_terms or punct or history_nested:
+                    if wild or exc_terms or punct or history_nested or twins_in_must:
                         nontrivial = True
                     if wild:
                         labels.add('q:nonempty+wildcard')
